@@ -259,8 +259,8 @@ ADDED = {
     "C01": " Sums over columns with empty cells are used as values; conditions may carry nocontrib.",
     "C02": " Every third terminal state is also replayed as a one-member named-paths group with collect_paths and collect_by_line.",
     "C03": " Assignments from count(<something>), counters with increments of 0 or read from a cell, stacks popped while they hold equal values.",
-    "C04": " Verdict-report runs: csvpaths whose only variables are line-by-line reports of valid()/failed() around conditional fail(); error runs with fail(), skip() and error components.",
-    "C05": " Error runs inside the run machine (Eval!Flush = ErrorPolicy!HandleN) with control functions, incl. errors raised under last() on a file that ends in a blank record.",
+    "C04": " Verdict-report runs: csvpaths whose only variables are line-by-line reports of valid()/failed() around conditional fail(); error runs with fail(), skip() and error components; exceptions that escape a member's run loop in a group, against MC_ErrorPolicy's one-line behaviours.",
+    "C05": " Error runs inside the run machine (Eval!Flush = ErrorPolicy!HandleN) with control functions, incl. errors raised under last() on a file that ends in a blank record; exceptions that escape a member's run loop in a named-paths run (handled under the member's policy).",
     "C07": " collect() (the function) of a header a matched line need not have: the hand-over fails in every method at the same call.",
     "C08": " Each member's collected data.csv in every collecting way equals its standalone lines.",
     "C09": " Groups print to the default and to named printouts (compared section by section); early-failing members followed by erroring members.",
